@@ -472,6 +472,10 @@ pub struct AbiCase {
     /// error condition injected at open instead: 0 none, 1 missing file, 2 bad magic, 3 small declared size, 4 generation 0
     pub open_error: u8,
     pub shared_lib: bool,
+    /// what lies at the segment path before the daemon starts: 0 nothing, 1 200 bytes of garbage,
+    /// 2 9 bytes of garbage, 3 a 128-byte stale segment with version 0
+    #[serde(default)]
+    pub preexisting: u8,
 }
 
 pub struct C17;
@@ -491,9 +495,9 @@ fn c17_strategy() -> BoxedStrategy<AbiCase> {
         -((1i64 << 31) * 1_000_000_000)..((1i64 << 31) * 1_000_000_000),
         any::<bool>(),
         prop_oneof![8 => Just(0u8), 1 => 1u8..5],
-        any::<bool>(),
+        (any::<bool>(), prop_oneof![5 => Just(0u8), 1 => Just(1u8), 1 => Just(2u8), 1 => Just(3u8)]),
     )
-        .prop_map(|(mut rec, bound, drift, (as_s, as_n), age, real, via_updater, open_error, shared_lib)| {
+        .prop_map(|(mut rec, bound, drift, (as_s, as_n), age, real, via_updater, open_error, (shared_lib, preexisting))| {
             // physically meaningful timestamps for the now() comparison; all fields stay distinct
             rec.as_of_s = as_s;
             rec.as_of_ns = as_n;
@@ -512,6 +516,7 @@ fn c17_strategy() -> BoxedStrategy<AbiCase> {
                 via_updater,
                 open_error,
                 shared_lib,
+                preexisting,
             }
         })
         .boxed()
@@ -563,7 +568,24 @@ fn check_c17_case(case: &AbiCase, env: &mut Env) -> Verdict {
         return v;
     }
 
-    // ---- layout: publish with the real writer (raw or through the daemon's updater)
+    // ---- layout: publish with the real writer (raw or through the daemon's updater), possibly
+    // over something unusable that was lying at the path
+    match case.preexisting {
+        1 => {
+            v.label("cold-start-over-longer-garbage");
+            v.nontrivial = true;
+            std::fs::write(&path, vec![0xA5u8; 200]).unwrap()
+        }
+        2 => std::fs::write(&path, b"foobarbaz").unwrap(),
+        3 => {
+            v.label("cold-start-over-longer-garbage");
+            v.nontrivial = true;
+            let mut b = segment_bytes(&Hdr { version: 0, size: 128, ..Hdr::valid(0) }, r);
+            b.resize(128, 0x77);
+            std::fs::write(&path, b).unwrap()
+        }
+        _ => {}
+    }
     let published: Rec;
     {
         let mut w = match crate::shmutil::new_writer(&path) {
@@ -683,7 +705,7 @@ impl Property for C17 {
     type Case = AbiCase;
     const ID: &'static str = "C17";
     fn rule() -> String {
-        "cases = record with all fields drawn independently (negative and > 2^32 bounds, all of u32 for drift and reserved, sec+nsec of both timestamps, 3 statuses), published through the real ShmWriter (raw) or through the daemon's ShmUpdater; clock readings incl. causality breaches, ages beyond 5 s / beyond void_after, malformed drift; open errors (missing file, bad magic, small declared size, generation 0); static and shared libclockbound. Oracle: (layout) the file decoded with offsets transcribed from PROTOCOL.md equals the published field values, length 72, header magic/size/version 1/generation 2, status in 0..2; (ABI) a C program compiled against clockbound.h returns for the same segment and the same virtual (realtime, monotonic) exactly the Rust client's earliest/latest/status or error kind/errno/detail; sizeof/offsetof/enumerators reported by the C program equal the documented ones. Non-trivial: all fields non-zero and pairwise distinct, or an error case.".into()
+        "cases = record with all fields drawn independently (negative and > 2^32 bounds, all of u32 for drift and reserved, sec+nsec of both timestamps, 3 statuses), published through the real ShmWriter (raw) or through the daemon's ShmUpdater, on a fresh path or over unusable leftovers (200 bytes of garbage, 9 bytes, a 128-byte stale segment); clock readings incl. causality breaches, ages beyond 5 s / beyond void_after, malformed drift; open errors (missing file, bad magic, small declared size, generation 0); static and shared libclockbound. Oracle: (layout) the file decoded with offsets transcribed from PROTOCOL.md equals the published field values, length 72, header magic/size/version 1/generation 2, status in 0..2; (ABI) a C program compiled against clockbound.h returns for the same segment and the same virtual (realtime, monotonic) exactly the Rust client's earliest/latest/status or error kind/errno/detail; sizeof/offsetof/enumerators reported by the C program equal the documented ones. Non-trivial: all fields non-zero and pairwise distinct, or an error case.".into()
     }
     fn assumptions() -> Vec<String> {
         vec!["the magic number is read as the two 32-bit words 0x414D5A4E 0x43420200 in native byte order (PROTOCOL.md lists the eight bytes in that reading)".into()]
@@ -703,6 +725,7 @@ impl Property for C17 {
     fn floors() -> Vec<(&'static str, f64)> {
         vec![
             ("all-fields-nonzero-distinct", 0.2),
+            ("cold-start-over-longer-garbage", 0.1),
             ("open-error-case", 0.05),
             ("now-error-case", 0.1),
             ("libclockbound-so", 0.3),
